@@ -1256,3 +1256,103 @@ Proof.
   - exists j'. split; [lia|assumption].
   - replace (k + (j - k))%nat with j in Hin by lia. rewrite He in Hin. destruct Hin.
 Qed.
+
+(** * The "wake only on the empty -> non-empty transition" variant
+
+    [Insert] samples [wake := q.Len() == 0] in one critical section, runs the
+    locked insert in a second, and sends the token only if [ok && wake].  The
+    sample is one more atomic step of the producer between its closed check and
+    its locked insert; the state gets the sampled value per producer.  The pc
+    [PInserted i b] now carries [b = ok && wake] (will the token be sent). *)
+
+Record tstate := mkT { t_s : lstate; t_wake : nat -> option bool }.
+
+Definition t_init : tstate := mkT l_init (fun _ => None).
+
+Definition set_wake (f : nat -> option bool) (n : nat) (w : option bool) : nat -> option bool :=
+  fun m => if Nat.eqb m n then w else f m.
+
+Definition tstep (t : tstate) (l : label) : option tstate :=
+  let s := t_s t in
+  let lift := match lstep s l with
+              | Some s' => Some (mkT s' (t_wake t))
+              | None => None
+              end in
+  match l with
+  | LP n =>
+      match l_pp s n with
+      | PChecked i =>
+          match t_wake t n with
+          | None =>          (* wake := q.Len() == 0 *)
+              Some (mkT s (set_wake (t_wake t) n (Some (Nat.eqb (q_len (l_q s)) 0))))
+          | Some w =>        (* ok := q.insert(i) *)
+              let '(q', ok) := locked_insert (l_q s) i in
+              Some (mkT (mkL q' (set_pp (l_pp s) n (PInserted i (ok && w))) (l_cp s) (l_cancelled s)
+                             (EIns n i ok :: l_hist s))
+                        (set_wake (t_wake t) n None))
+          end
+      | _ => lift
+      end
+  | _ => lift
+  end.
+
+Definition tdelivers (run : nat -> tstate) (lab : nat -> option label) (j : nat) (x : item) : Prop :=
+  lab j = Some LC /\ pops (t_s (run j)) x.
+
+(** the witness: 1 is queued; Insert(2) samples "not empty"; the consumer
+    delivers 1, calls Next again, uses up the stale token and parks; Insert(2)
+    lands in the empty queue and returns without a token. *)
+Definition t_labs : list label :=
+  [LCall 0 1; LP 0; LP 0; LP 0; LCall 0 2; LP 0; LC; LC; LSel STok; LC; LP 0; LP 0].
+
+Definition t_lab (k : nat) : option label := nth_error t_labs k.
+
+Definition t_run (k : nat) : tstate :=
+  match run tstep t_init (firstn k t_labs) with
+  | Some t => t
+  | None => t_init
+  end.
+
+Lemma t_is_run : is_run tstep t_run t_lab.
+Proof.
+  intros k. do 12 (destruct k as [|k]; [vm_compute; reflexivity|]).
+  unfold t_lab, t_run. cbn [nth_error t_labs firstn]. destruct k; reflexivity.
+Qed.
+
+Lemma t_run_late k : (12 <= k)%nat -> t_run k = t_run 12.
+Proof.
+  intros H. do 12 (destruct k as [|k]; [lia|]). unfold t_run. cbn [firstn t_labs]. destruct k; reflexivity.
+Qed.
+
+Theorem transition_wake_delivery_refuted :
+  exists run lab,
+    run 0%nat = t_init /\ is_run tstep run lab /\
+    wfair tstep run lab cons_label /\
+    (forall n, wfair tstep run lab (fun l => l = LP n)) /\
+    (* Insert(2) by producer 0: sample at step 5, locked section at step 10, return at step 11 *)
+    lab 10%nat = Some (LP 0) /\ l_pp (t_s (run 10%nat)) 0%nat = PChecked 2 /\
+    lab 11%nat = Some (LP 0) /\ (exists b, l_pp (t_s (run 11%nat)) 0%nat = PInserted 2 b) /\
+    (forall j, (11 <= j)%nat -> q_queue (l_q (t_s (run j))) = [2]) /\
+    (forall j, ~ tdelivers run lab j 2).
+Proof.
+  exists t_run, t_lab.
+  split; [reflexivity|]. split; [exact t_is_run|].
+  split.
+  { intros k. exists (Nat.max k 12). split; [lia|]. right. rewrite t_run_late by lia.
+    intros (l & [->|[b ->]] & Hs); apply Hs; [|destruct b]; vm_compute; reflexivity. }
+  split.
+  { intros n k. exists (Nat.max k 12). split; [lia|]. right. rewrite t_run_late by lia.
+    intros (l & -> & Hs). apply Hs. destruct n; vm_compute; reflexivity. }
+  split; [reflexivity|]. split; [vm_compute; reflexivity|].
+  split; [reflexivity|]. split; [eexists; vm_compute; reflexivity|].
+  split.
+  { intros j Hj. do 11 (destruct j as [|j]; [lia|]).
+    destruct j as [|j]; [vm_compute; reflexivity|]. destruct j as [|j]; [vm_compute; reflexivity|].
+    rewrite t_run_late by lia. vm_compute. reflexivity. }
+  intros j (Hl & _ & (d & q' & Hn)).
+  assert (Hj : j = 6%nat \/ j = 7%nat \/ j = 9%nat).
+  { clear Hn. unfold t_lab, t_labs in Hl.
+    do 12 (destruct j as [|j]; [cbn in Hl; try discriminate; auto|]).
+    cbn in Hl. destruct j; discriminate. }
+  destruct Hj as [-> | [-> | ->]]; vm_compute in Hn; discriminate.
+Qed.
